@@ -61,6 +61,8 @@ def cases(tier, seed):
                 cs.append({'scen': 'c18_unary_args', 's': {'what': 'pad_count', 'd': d, 'kind': kind, 'k': k, 'B': B}})
             for mode in (0, d - 1, d, -1):
                 cs.append({'scen': 'c18_unary_args', 's': {'what': 'mprod', 'd': d, 'kind': kind, 'mode': mode, 'B': B, 'class_check': -d <= mode < d}})
+            for modes in ([0, 0], [0, d - 1], [d - 1, 0], [0, -d], [-1, d - 1], [0, d]):
+                cs.append({'scen': 'c18_unary_args', 's': {'what': 'mprod_list', 'd': d, 'kind': kind, 'modes': modes, 'B': B, 'class_check': all(-d <= m < d for m in modes)}})
             for k in (0, d - 1, d, -1):
                 cs.append({'scen': 'c18_unary_args', 's': {'what': 'set_core', 'd': d, 'kind': kind, 'k': k, 'B': B}})
             cs.append({'scen': 'c18_unary_args', 's': {'what': 'set_core', 'd': d, 'kind': kind, 'k': 0, 'wrong_ndim': True, 'B': B, 'class_check': False}})
